@@ -20,7 +20,11 @@
  *               mm: SR SC P.. MAPFLAG [ports (max(SR,SC))]   MAPFLAG 0 = NULL port map
  *        P: Z (VNACAL_ZERO/MATCH), O (VNACAL_ONE/OPEN), S (VNACAL_SHORT), pN (PID N), iN (raw int N)
  *   solve ID | addcal ID NAME | free ID
- *   apply NAME FORM F f.. AR AC BR BC [A] B       vnacal_apply / vnacal_apply_m
+ *   apply NAME FORM F f.. AR AC BR BC [A] B       vnacal_apply / vnacal_apply_m (index from vnacal_find_calibration)
+ *   applyi REF FORM F f.. AR AC BR BC [A] B       the same through a calibration index the script obtained earlier:
+ *                                                 REF = rK (value returned by the K-th addcal command, K from 0) or
+ *                                                 a plain integer
+ *   delcal REF                                    vnacal_delete_calibration
  *   terms NAME                                    saved error terms (cal_error_term_vector)
  *   dump ID                                       structural dump (DESIGN.md appendix A.4); for a measurement
  *                                                 whose stored M values at frequency 0 are all small positive
@@ -108,6 +112,22 @@ static vnacal_t *vcp;
 static vnacal_new_t *slot[MAXSLOT];
 static int slot_F[MAXSLOT];
 static int params[MAXPARAM];
+
+#define MAXADDCAL 64
+static int addcal_result[MAXADDCAL];
+static int naddcal;
+
+/* calibration index reference: rK = result of the K-th addcal command, or a plain integer */
+static int getref(void)
+{
+    char *s = need();
+    if (s[0] == 'r') {
+	int k = atoi(s + 1);
+	if (k < 0 || k >= naddcal) { printf("SCRIPT-ERROR ref %s\n", s); exit(3); }
+	return addcal_result[k];
+    }
+    return atoi(s);
+}
 
 static int getp(void)
 {
@@ -332,7 +352,15 @@ int main(void)
 	    int rc = vnacal_add_calibration(vcp, name, slot[id]);
 	    int ci = vnacal_find_calibration(vcp, name);
 	    TRACK(0);
+	    if (naddcal < MAXADDCAL) addcal_result[naddcal++] = rc;
 	    printf("addcal rc=%d ci=%d\n", rc, ci);
+	} else if (strcmp(cmd, "delcal") == 0) {
+	    int ci = getref();
+	    TRACK(1);
+	    int rc = vnacal_delete_calibration(vcp, ci);
+	    int e = errno;
+	    TRACK(0);
+	    printf("delcal ci=%d rc=%d errno=%s cb=%d\n", ci, rc, eclass(rc == 0 ? 0 : e), ncallbacks);
 	} else if (strcmp(cmd, "free") == 0) {
 	    int id = geti();
 	    TRACK(1);
@@ -340,8 +368,10 @@ int main(void)
 	    TRACK(0);
 	    slot[id] = NULL;
 	    printf("free %d\n", id);
-	} else if (strcmp(cmd, "apply") == 0) {
-	    char *name = need(); char *form = need();
+	} else if (strcmp(cmd, "apply") == 0 || strcmp(cmd, "applyi") == 0) {
+	    const bool by_index = strcmp(cmd, "applyi") == 0;
+	    int ci_given = by_index ? getref() : -1;
+	    char *name = by_index ? NULL : need(); char *form = need();
 	    int F = geti();
 	    double fv[F > 0 ? F : 1];
 	    for (int i = 0; i < F; ++i) fv[i] = getd();
@@ -351,13 +381,16 @@ int main(void)
 	    double complex **b = read_matrix(br * bc, F);
 	    vnadata_t *vdp = vnadata_alloc(NULL, NULL);
 	    TRACK(1);
-	    int ci = vnacal_find_calibration(vcp, name);
+	    int ci = by_index ? ci_given : vnacal_find_calibration(vcp, name);
 	    errno = 0;
 	    int rc = ab ? vnacal_apply(vcp, ci, fv, F, a, ar, ac, b, br, bc, vdp)
 			: vnacal_apply_m(vcp, ci, fv, F, b, br, bc, vdp);
 	    int e = errno;
 	    TRACK(0);
-	    printf("apply rc=%d errno=%s cb=%d", rc, eclass(rc == 0 ? 0 : e), ncallbacks);
+	    if (by_index)
+		printf("applyi ci=%d rc=%d errno=%s cb=%d", ci, rc, eclass(rc == 0 ? 0 : e), ncallbacks);
+	    else
+		printf("apply rc=%d errno=%s cb=%d", rc, eclass(rc == 0 ? 0 : e), ncallbacks);
 	    if (rc == 0) {
 		int rows = vnadata_get_rows(vdp), cols = vnadata_get_columns(vdp), nf = vnadata_get_frequencies(vdp);
 		printf(" rows=%d cols=%d F=%d\n", rows, cols, nf);
